@@ -2,11 +2,13 @@ SPECIFICATION GenSpec
 CONSTANTS
   Nil = Nil
   Locked = TRUE
+  CheckUnderLock = TRUE
   MaxCallsR1 = 3
   MaxCallsR2 = 3
   KindsR1 = {"lookup", "current"}
   KindsR2 = {"lookup", "current"}
   MaxAppends = 2
+  NUpdaters = 1
   VaaNames = {}
   GenDepth = 8
 CONSTRAINT Emit
